@@ -363,3 +363,22 @@ Proof.
       rewrite He. destruct (p ++ [0]) eqn:E; [destruct p; discriminate|]. rewrite Hl. reflexivity.
     + rewrite (sx_item_strict [] _ (Hnone _) root Hroot). reflexivity.
 Qed.
+
+(* serialize + strict, packaged *)
+Theorem enc_wbxml_wide tbl l o tag attrs ch bs :
+  let e := enc_env l o in
+  plain_env e = true -> frag2_node e (NElt tag attrs ch) = true ->
+  enc_wbxml tbl l o [NElt tag attrs ch] = EOk bs ->
+  exists body st' root,
+    enc_body tbl l o [NElt tag attrs ch] = EOk (body, st') /\
+    abs_node e None (NElt tag attrs ch) (start_state e [NElt tag attrs ch]) = Some ([root], st') /\
+    ((let '(_, t, _) := header_table e st' in tbl_size t < 4294967296) ->
+     (match header_pid e with Some p => len p + 1 < 4294967296 | None => True end) ->
+     bs = S.serialize (abs_doc2 e st' root) /\ S.strict_doc (abs_doc2 e st' root) = true).
+Proof.
+  cbv zeta. intros HP HF E.
+  destruct (enc_wbxml_serialize2 tbl l o tag attrs ch bs HP HF E) as (st' & root & EB & AN & HS).
+  eexists _, st', root. split; [exact EB|]. split; [exact AN|]. intros Hb Hp. split.
+  - apply HS. exact (header_len_ok_holds tbl l o tag attrs ch _ st' root EB AN Hb Hp).
+  - exact (abs_doc2_strict tbl l o tag attrs ch _ st' root EB AN Hb).
+Qed.
